@@ -127,6 +127,7 @@ type Config struct {
 	Leftovers   []Leftover
 	ScriptSeed  uint64
 	Links       []LinkDef
+	GCDirsFlag  string // value of the daemon's --gc_dirs flag ("" = its default, which lists the flannel, galaxy and port directories)
 	BadResultRate int // per mille: a successful plugin ADD prints a result galaxy cannot use (no / invalid IPv4), scripted like failures
 	AddFailRate int // per mille, scripted per (container, ifname, attempt)
 	DelFailRate int
@@ -673,6 +674,11 @@ func genConfig(c *core.Choices, prop string) *Config {
 	}
 	if prop == "C17" || prop == "C19" || prop == "C18" {
 		genLeftovers(c, cfg)
+	}
+	if prop == "C17" && c.Prob(1, 3) {
+		// an operator's gc_dirs that does not list the port directory: port files and mappings of dead containers are
+		// then reached only through the port-clean callback that every collected state file triggers
+		cfg.GCDirsFlag = gcDirs[0] + "," + gcDirs[1]
 	}
 	var forms []string
 	for _, n := range cfg.Nets {
